@@ -228,7 +228,7 @@ _Static_assert(sizeof(struct get_san_param) == sizeof(struct xv_idx_param) && si
                __builtin_offsetof(struct get_dir_cn_param, target_index) == sizeof(size_t) && __builtin_offsetof(struct get_dir_cn_param, cn) == 2 * sizeof(size_t),
                "struct xv_idx_param (harness/cert/_ghost.h) mirrors get_san_param / get_dir_cn_param of cert.c");
 #define XC_NM_ASSIGNS xv_nm_calls, xv_nm_name, xv_nm_fills, xv_nm_fill_name, xv_nm_buf, xv_nm_fill_len
-#define XC_CN_OK (xv_cn_len >= 0 && xv_cn_len <= XV_ASN1_MAX && XV_LIVE_OK(xv_heap_live) && XV_LIVE_OK(xv_nm_calls) && XV_LIVE_OK(xv_nm_fills))
+#define XC_CN_OK (xv_cn_len >= 0 && xv_cn_len <= XV_ASN1_MAX && XV_LIVE_OK2(xv_heap_live) && XV_LIVE_OK(xv_nm_calls) && XV_LIVE_OK(xv_nm_fills))
 /* the string returned for a name that has a commonName: a block of the caller's holding the xv_cn_len bytes of its value
  * and a terminator (what the bytes are: byte xv_mc is the value's byte xv_mc) */
 #define XC_CN_STRING(r) (__CPROVER_is_fresh((r), (size_t)xv_cn_len + 1) && (r)[xv_cn_len] == 0 && (xv_mc < (size_t)xv_cn_len ==> (r)[xv_mc] == (char)xv_cn_byte))
@@ -237,7 +237,8 @@ static char *get_cn(const X509_NAME *x509_name)
 __CPROVER_requires(XC_CN_OK)
 __CPROVER_assigns(xv_heap_live, XC_NM_ASSIGNS)
 /* PO[C10,C14] get_cn.NULL_when_the_name_has_no_common_name */
-__CPROVER_ensures((x509_name == NULL || !xv_cn_present) ==> (__CPROVER_return_value == NULL && xv_heap_live == __CPROVER_old(xv_heap_live) && xv_nm_fills == __CPROVER_old(xv_nm_fills)))
+__CPROVER_ensures((x509_name == NULL || !xv_cn_present) ==> (__CPROVER_return_value == NULL && xv_heap_live == __CPROVER_old(xv_heap_live) && xv_nm_fills == __CPROVER_old(xv_nm_fills) && \
+                  xv_nm_calls == __CPROVER_old(xv_nm_calls) + 1))
 /* PO[C10,C14,C08] get_cn.owned_terminated_copy_of_the_common_name */
 __CPROVER_ensures((x509_name != NULL && xv_cn_present) ==> (XC_CN_STRING(__CPROVER_return_value) && xv_heap_live == __CPROVER_old(xv_heap_live) + 1))
 /* PO[C10] get_cn.openssl_is_given_the_whole_block_and_this_name */
@@ -267,10 +268,10 @@ __CPROVER_ensures(xv_subj_calls == __CPROVER_old(xv_subj_calls) + 1 && (xv_subj_
 #define XC_WANT_OF(t) ((t) == cert_san_type_dns ? GEN_DNS : (t) == cert_san_type_email ? GEN_EMAIL : GEN_DIRNAME)
 #define XC_TYPE_OK(t) ((t) == cert_san_type_dns || (t) == cert_san_type_email || (t) == cert_san_type_dir)
 /* entry state of a traversal: no stack handed out, nothing counted yet; the stack has 0..INT_MAX-1 entries */
-#define XC_GN_ENTRY (xv_gn_num >= 0 && xv_gn_num < 2147483647 && xv_gn_live == 0 && xv_gn_next == 0 && xv_gn_match == 0 && XV_LIVE_OK(xv_d2i_calls) && \
+#define XC_GN_ENTRY (xv_gn_num >= 0 && xv_gn_num < 2147483647 && xv_asn1_cap >= 1 && xv_asn1_cap <= XV_ASN1_MAX + 1 && __CPROVER_rw_ok(xv_asn1_buf, (size_t)xv_asn1_cap) && xv_gn_live == 0 && xv_gn_next == 0 && xv_gn_match == 0 && XV_LIVE_OK(xv_d2i_calls) && \
                      XV_LIVE_OK(xv_gn_free_calls) && XV_LIVE_OK(xv_heap_live) && xv_heap_live == xv_heap0)
 #define XC_GN_ASSIGNS xv_d2i_calls, xv_gn_live, xv_gn_free_calls, xv_gn_next, xv_gn_match, xv_gn_ent, xv_gn_cur_payload, xv_gn_k_payload, xv_gn_k_len, xv_gn_k_byte, \
-                      xv_gn_cur_byte, xv_gn_cur_match, xv_asn1_str, xv_asn1_data, xv_asn1_len, xv_asn1_z
+                      xv_gn_cur_byte, xv_gn_cur_match, xv_asn1_str, xv_asn1_data, xv_asn1_len, xv_asn1_z, xv_id_base, __CPROVER_object_whole(xv_asn1_buf)
 /* C08: the GENERAL_NAMES stack obtained from X509_get_ext_d2i() is released exactly once, with its entries, on every path */
 #define XC_GN_RELEASED (xv_gn_live == 0 && xv_d2i_calls == __CPROVER_old(xv_d2i_calls) + 1 && xv_gn_free_calls == __CPROVER_old(xv_gn_free_calls) + 1)
 /* every entry has been examined (in order, each once: the model's assertion) */
@@ -279,7 +280,7 @@ __CPROVER_ensures(xv_subj_calls == __CPROVER_old(xv_subj_calls) + 1 && (xv_subj_
 /* the recording callback: its PRECONDITION is the property "foreach_san hands the callback exactly the entries of the
  * requested type, in order, each as the NUL-terminated string of exactly its ASN.1 length" */
 void xv_san_cb(const void *data, void *cb_data)
-__CPROVER_requires(xv_gn_cur_match && cb_data == (void *)xv_g_p1 && xv_cb_calls == xv_gn_match - 1)
+__CPROVER_requires(xv_gn_cur_match && cb_data == (void *)xv_g_p1 && xv_cb_calls + 1 == xv_gn_match)
 __CPROVER_requires(xv_gn_want == GEN_DIRNAME ? data == xv_gn_cur_payload : \
                    (__CPROVER_r_ok(data, (size_t)xv_asn1_len + 1) && ((const char *)data)[xv_asn1_len] == 0 && (xv_mc < (size_t)xv_asn1_len ==> ((const char *)data)[xv_mc] == xv_gn_cur_byte)))
 __CPROVER_assigns(xv_cb_calls)
@@ -300,22 +301,36 @@ size_t cert_count_san(X509 *cert, enum cert_san_type san_type)
 __CPROVER_requires(cert == XV_CERT && XC_TYPE_OK(san_type) && xv_gn_want == XC_WANT_OF(san_type) && XC_GN_ENTRY)
 __CPROVER_assigns(XC_GN_ASSIGNS)
 /* PO[C10,C14] cert_count_san.number_of_entries_a_traversal_visits */
-__CPROVER_ensures(__CPROVER_return_value == (size_t)xv_gn_match && XC_GN_ALL_SEEN)
+__CPROVER_ensures(__CPROVER_return_value == xv_gn_match && XC_GN_ALL_SEEN)
 /* PO[C08] cert_count_san.general_names_released_exactly_once */
 __CPROVER_ensures(XC_GN_RELEASED && xv_heap_live == __CPROVER_old(xv_heap_live))
+;
+
+/* ut_strdup as a CONTRACT (TRUSTED, same semantics as the model body in env/cert_env.h restricted to the one use made of it
+ * here): used (`replace:`) only in the job of cert_get_san, because DFCC does not admit an allocation made by a function BODY
+ * inside a loop that carries a loop contract, while a replaced contract's ensures(is_fresh) is admitted.  There ut_strdup is
+ * applied to the data of the entry handed out last: the copy has the length of the data up to its first NUL (xv_asn1_z) and
+ * its byte xv_mc; if the data has no NUL and none follows it, strdup(3) reads past the ASN.1 value: precondition.
+ * xv_dup_fix (never assigned): the block returned (ONE application per path, see HOWTO on pointer-typed ghosts). */
+char *ut_strdup(const char *str)
+__CPROVER_requires(str != NULL && str == (const char *)xv_asn1_data && (xv_asn1_nt || xv_asn1_z < xv_asn1_len) && XV_LIVE_OK2(xv_heap_live) && XV_LIVE_OK(xv_dup_calls))
+__CPROVER_assigns(xv_heap_live, xv_dup_calls, xv_dup_len, xv_dup_byte)
+__CPROVER_ensures(xv_dup_len == (size_t)xv_asn1_z && __CPROVER_is_fresh(__CPROVER_return_value, xv_dup_len + 1) && __CPROVER_return_value[xv_dup_len] == 0 && \
+                  __CPROVER_return_value == xv_dup_fix && xv_dup_byte == (xv_mc < xv_dup_len ? xv_gn_cur_byte : 0) && \
+                  xv_heap_live == __CPROVER_old(xv_heap_live) + 1 && xv_dup_calls == __CPROVER_old(xv_dup_calls) + 1)
 ;
 
 /* cert_get_san: index == xv_want_ord (ghost constant): the model remembers match number xv_want_ord (its length xv_gn_k_len,
  * its byte xv_gn_k_byte at offset xv_mc); ut_strdup records what it was given (xv_dup_len, xv_dup_byte) and what it returned */
 char *cert_get_san(X509 *cert, enum cert_san_type san_type, size_t index)
 __CPROVER_requires(cert == XV_CERT && (san_type == cert_san_type_dns || san_type == cert_san_type_email) && xv_gn_want == XC_WANT_OF(san_type) && XC_GN_ENTRY)
-__CPROVER_requires(index == xv_want_ord && xv_dup_calls == 0)
-__CPROVER_assigns(XC_GN_ASSIGNS, xv_heap_live, XC_DUP_ASSIGNS)
+__CPROVER_requires(index == xv_want_ord && xv_dup_calls == 0 && xv_dup_fix != NULL)
+__CPROVER_assigns(XC_GN_ASSIGNS, xv_heap_live, xv_dup_calls, xv_dup_len, xv_dup_byte)
 /* PO[C10,C14] cert_get_san.the_index_th_visited_entry_as_a_string_of_the_callers */
-__CPROVER_ensures(index < (size_t)xv_gn_match ==> (__CPROVER_return_value != NULL && __CPROVER_return_value == xv_dup_ret && xv_dup_calls == 1 && \
-                  xv_dup_len == (size_t)xv_gn_k_len && xv_dup_byte == xv_gn_k_byte && xv_heap_live == __CPROVER_old(xv_heap_live) + 1))
+__CPROVER_ensures(index < xv_gn_match ==> (__CPROVER_return_value != NULL && __CPROVER_return_value == xv_dup_fix && xv_dup_calls == 1 && \
+                  xv_dup_len == xv_gn_k_len && xv_dup_byte == xv_gn_k_byte && xv_heap_live == __CPROVER_old(xv_heap_live) + 1))
 /* PO[C10,C14] cert_get_san.NULL_beyond_the_last_entry */
-__CPROVER_ensures(index >= (size_t)xv_gn_match ==> (__CPROVER_return_value == NULL && xv_dup_calls == 0 && xv_heap_live == __CPROVER_old(xv_heap_live)))
+__CPROVER_ensures(index >= xv_gn_match ==> (__CPROVER_return_value == NULL && xv_dup_calls == 0 && xv_heap_live == __CPROVER_old(xv_heap_live)))
 /* PO[C08] cert_get_san.general_names_released_exactly_once */
 __CPROVER_ensures(XC_GN_RELEASED && XC_GN_ALL_SEEN)
 ;
@@ -325,10 +340,10 @@ __CPROVER_requires(cert == XV_CERT && xv_gn_want == GEN_DIRNAME && XC_GN_ENTRY &
 __CPROVER_requires(index == xv_want_ord && xv_nm_calls == 0 && xv_nm_fills == 0)
 __CPROVER_assigns(XC_GN_ASSIGNS, xv_heap_live, XC_NM_ASSIGNS)
 /* PO[C10,C14] cert_get_dir_cn.common_name_of_the_index_th_directory_name */
-__CPROVER_ensures((index < (size_t)xv_gn_match && xv_cn_present) ==> (__CPROVER_return_value != NULL && __CPROVER_return_value == xv_nm_buf && xv_nm_fills == 1 && \
+__CPROVER_ensures((index < xv_gn_match && xv_cn_present) ==> (__CPROVER_return_value != NULL && __CPROVER_return_value == xv_nm_buf && xv_nm_fills == 1 && \
                   xv_nm_fill_name == xv_gn_k_payload && xv_nm_fill_len == xv_cn_len + 1 && xv_heap_live == __CPROVER_old(xv_heap_live) + 1))
 /* PO[C10,C14] cert_get_dir_cn.NULL_beyond_the_last_entry_or_without_common_name */
-__CPROVER_ensures((index >= (size_t)xv_gn_match || !xv_cn_present) ==> (__CPROVER_return_value == NULL && xv_nm_fills == 0 && xv_heap_live == __CPROVER_old(xv_heap_live)))
+__CPROVER_ensures((index >= xv_gn_match || !xv_cn_present) ==> (__CPROVER_return_value == NULL && xv_nm_fills == 0 && xv_heap_live == __CPROVER_old(xv_heap_live)))
 /* PO[C08] cert_get_dir_cn.general_names_released_exactly_once */
 __CPROVER_ensures(XC_GN_RELEASED && XC_GN_ALL_SEEN)
 ;
